@@ -35,7 +35,7 @@ ENGINES = {
                          "sendRuntimeTrackedPkt=return verifDnsSendPkt(log, data, from, to, recordDownload)"]},
         ],
         "harness": ["harness/control/dns_engine_test.go", "harness/control/dns_world_test.go", "harness/control/dns_rules_test.go",
-                    "harness/control/dns_track_test.go", "harness/control/dns_oracle_test.go", "harness/control/dns_modes_test.go", "harness/control/dns_c08_test.go", "harness/control/dns_c10_test.go"],
+                    "harness/control/dns_track_test.go", "harness/control/dns_oracle_test.go", "harness/control/dns_c08_test.go", "harness/control/dns_c10_test.go", "harness/control/dns_c07_test.go", "harness/control/dns_c18_test.go"],
         "keepgoing": False,
         "quick_secs": 40, "thorough_secs": 600,
         "probes": [],
